@@ -13,8 +13,11 @@ Definition tp_init := Tp.init.
 Definition tp_step := Tp.step.
 Definition tp_hidden := Tp.hidden.
 Definition tp_waitc := Tp.waitc.
+Definition tp_regs := Tp.regs.
+Definition tp_busy := Tp.busy.
+Definition tp_workers := Tp.workers.
 Definition tp_view (c : Tp.cfg) (s : Tp.st) :=
   (Tp.acc s, (Tp.enq s, (Tp.done s, (Tp.disc s, (@nil nat, (Tp.started s, (Tp.queue s ++ Tp.held s,
   (Tp.uaf s, (Tp.freed s, (true, Tp.shut s)))))))))).
 Extraction "m.ml" Z.add Z.mul Z.sub Z.div_eucl Z.compare Z.of_nat Z.to_nat Z.opp
-  stw_cfg stw_init stw_step stw_hidden stw_view tp_cfg tp_init tp_step tp_hidden tp_waitc tp_view.
+  stw_cfg stw_init stw_step stw_hidden stw_view tp_cfg tp_init tp_step tp_hidden tp_waitc tp_regs tp_busy tp_workers tp_view.
